@@ -24,7 +24,8 @@ from lib import core
 
 DRIVER = "drv_heap"
 HU_DRIVER = "drv_heapaudit"
-LEAN_TARGETS = ["OmplModel.Props.C11", DRIVER, HU_DRIVER]
+RQ_DRIVER = "drv_revqueue"
+LEAN_TARGETS = ["OmplModel.Props.C11", DRIVER, HU_DRIVER, RQ_DRIVER]
 CMPS = ["less", "greater", "div4"]
 
 
@@ -479,7 +480,59 @@ def hu_parse_line(line):
             heaps.append(hu_parse_heap(seg))
         elif seg.startswith("F "):
             fq = hu_parse_fq(seg)
+        elif seg.startswith("O") and fq is not None:
+            fq["order"] = seg.split()[1:]
     return parts[0], heaps, fq
+
+
+def hu_parse_kl(line):
+    """`… | K n=.. s>t:k0:k1:k2:k3 … | L i=s>t,… …` of an rq line -> ({edge: (k0,k1,k2,k3)} in array order, {state: [edges]})"""
+    K, L = None, None
+    for seg in line.split(" | ")[1:]:
+        if seg.startswith("K "):
+            K = []
+            for tok in seg.split()[2:]:
+                e, k0, k1, k2, k3 = tok.split(":")
+                K.append((e, (k0, k1, k2, k3)))
+        elif seg == "L" or seg.startswith("L "):
+            L = {}
+            for tok in seg.split()[1:]:
+                i, _, es = tok.partition("=")
+                L[int(i)] = es.split(",")
+    return K, L
+
+
+def hu_strip_h(line):
+    """an rq line without its `H …` segment: what drv_revqueue prints"""
+    return " | ".join(seg for seg in line.split(" | ") if not seg.startswith("H "))
+
+
+class RQWorld:
+    """the State fields the reverse queue reads, tracked from the script (independent of the Lean model): the spec of the
+    stored keys is `keys(s, t)` evaluated at the time of the last insertOrUpdate / rebuild"""
+
+    def __init__(self):
+        self.st = []
+
+    def add(self, x, ctg, etg, lbctc, lbetc, inadm):
+        self.st.append({"x": x, "actg": ctg, "eetg": etg, "lbctc": lbctc, "lbetc": lbetc, "inadm": inadm, "wl": set(), "cc": {}})
+
+    def keys(self, s, t):
+        S, T = self.st[s], self.st[t]
+        h = abs(S["x"] - T["x"])
+        eff = 0 if t in S["wl"] else h - T["cc"].get(s, 0)
+        return (str(S["actg"] + h + T["lbctc"]), str(S["actg"] + h), str(S["eetg"] + eff + T["lbetc"]), str(S["eetg"] + eff + T["inadm"]))
+
+
+def fq_expected(queries, ck):
+    """queries: list of (factor, [(lb, est, eff)] in iteration order) -> list of front indices by the Lean rule"""
+    if not queries:
+        return []
+    lines = ["heapaudit"] + ["Q %s %d %s" % (f, len(rows), " ".join("%d %d %d" % r for r in rows)) for f, rows in queries]
+    out, rc, err = ck.run_bin(ck.driver(HU_DRIVER), lines)
+    if rc != 0:
+        raise RuntimeError("model driver %s failed on Q lines (rc=%s): %s" % (HU_DRIVER, rc, (err or "")[-600:]))
+    return [None if l == "front=-" or not l.startswith("front=") else int(l[6:]) for l in out]
 
 
 def hu_dump_oracle(d):
@@ -511,14 +564,35 @@ def hu_dump_oracle(d):
     return None
 
 
-def hu_oracle(script, out):
+def hu_oracle(script, out, extra=None):
     """user-level spec on the implementation's output.  returns (None | (step, class, text, heapname), dumps) where dumps is
-    the list of (step, heapdict) in output order."""
+    the list of (step, heapdict) in output order.  `extra` (a dict) receives the ForwardQueue front queries."""
     user = script[0].split()[0]
     dumps = []
     ops = [l for l in script[1:] if not l.startswith("#")]
+    if user == "planner":
+        # `cb <call> | H …` lines are dumps taken from inside the validity checker during the NEXT solve(): judge them like any
+        # other dump (they are taken between queue operations) and fold them away
+        folded, pend = [], []
+        for l in out:
+            if l.startswith("cb "):
+                pend.append(l)
+            else:
+                for c in pend:
+                    _, heaps, _ = hu_parse_line(c)
+                    for d in heaps:
+                        d["cb"] = c.split()[1]
+                        dumps.append((len(folded), d))
+                        f = hu_dump_oracle(d)
+                        if f:
+                            return (len(folded), f[0], "inside solve(), validity call %s: %s" % (d["cb"], f[1]), d["name"]), dumps
+                pend = []
+                folded.append(l)
+        out = folded
     if len(out) < len(ops):
         return (len(out), "crash", "implementation stopped early (crash or sanitizer report)", None), dumps
+    world = RQWorld()
+    fq_mod, fq_cached = True, None
     present = set()            # gridb: coordinates present
     motions = {}               # disc: motion id -> coord
     nextm = 0
@@ -577,6 +651,34 @@ def hu_oracle(script, out):
                         (m.group(1), m.group(2), len(motions), len(cells)), None), dumps
         elif user == "rq":
             d = byname["rq"]
+            K, L = hu_parse_kl(o)
+            fresh = []
+            if op == "st":
+                world.add(*map(int, t[1:7]))
+            elif op == "set" and t[2] in world.st[int(t[1])]:
+                world.st[int(t[1])][t[2]] = int(t[3])
+            elif op == "wl":
+                world.st[int(t[1])]["wl"].add(int(t[2]))
+            elif op == "cc":
+                world.st[int(t[2])]["cc"][int(t[1])] = int(t[3])
+            elif op == "ins":
+                fresh = ["%s>%s" % (t[1], t[2])]
+            elif op == "insv":
+                fresh = ["%s>%s" % (t[2 + a], t[3 + a]) for a in range(0, len(t) - 2, 2)]
+            elif op == "rebuild" and K is not None:
+                fresh = [e for e, _ in K]
+            if K is not None:
+                stored = dict(K)
+                for e in fresh:
+                    a, b = map(int, e.split(">"))
+                    if e not in stored or stored[e] != world.keys(a, b):
+                        return (i, "stale-key", "after %s the stored key of edge %s is %s, the fields say %s" %
+                                (op, e, stored.get(e), world.keys(a, b)), "rq"), dumps
+                by_src = {}
+                for e, _ in K:
+                    by_src.setdefault(int(e.split(">")[0]), []).append(e)
+                if {k_: sorted(v) for k_, v in (L or {}).items()} != {k_: sorted(v) for k_, v in by_src.items()}:
+                    return (i, "handles", "the vertices' handle lookups %s do not list exactly the queued edges %s" % (L, by_src), "rq"), dumps
             if op == "ins" and res == "ok":
                 live.add("%s>%s" % (t[1], t[2]))
             elif op == "insv" and res == "ok":
@@ -610,16 +712,39 @@ def hu_oracle(script, out):
                 live.discard("%s>%s" % (t[1], t[2]))
             elif op == "clear":
                 live = set()
+            elif op == "upd" and "%s>%s" % (t[1], t[2]) in live:
+                fq_mod = True
             elif op in ("pop", "peek") and res != "empty":
                 e2 = res.split()[0][2:]
                 src = prevfq if op == "pop" else fq
                 if e2 not in src["rows"]:
                     return (i, "pop-not-member", "%s returned edge %s which was not in the queue" % (op, e2), "fq"), dumps
-                if t[1] == "inf" and src["rows"][e2][2] != min(r[2] for r in src["rows"].values()):
-                    return (i, "top-not-min", "%s(inf) returned edge %s whose effort %d is not the least queued" %
-                            (op, e2, src["rows"][e2][2]), "fq"), dumps
+                if not fq_mod:
+                    # front cached by the last peek and the queue untouched since: the cached edge comes back whatever the factor
+                    if e2 != fq_cached:
+                        return (i, "fq-cache", "%s returned %s although the front cached by the last peek is %s and the queue was not "
+                                "modified since" % (op, e2, fq_cached), "fq"), dumps
+                else:
+                    if t[1] == "inf" and src["rows"][e2][2] != min(r[2] for r in src["rows"].values()):
+                        return (i, "top-not-min", "%s(inf) returned edge %s whose effort %d is not the least queued" %
+                                (op, e2, src["rows"][e2][2]), "fq"), dumps
+                    if extra is not None:
+                        rows = []
+                        for x in src["order"]:
+                            lb, est, eff = src["rows"][x]
+                            if lb != int(lb) or est != int(est):
+                                rows = None
+                                break
+                            rows.append((int(lb), int(est), eff))
+                        if rows is not None:
+                            extra.setdefault("fq", []).append((i, t[1], rows, src["order"], e2))
                 if op == "pop":
                     live.discard(e2)
+                    fq_mod = True
+                else:
+                    fq_cached, fq_mod = e2, False
+            if op in ("ins", "rm", "clear", "rebuild") and res in ("ok",):
+                fq_mod = True
             if fq is None or fq["n"] != len(live) or sorted(fq["rows"]) != sorted(live):
                 return (i, "membership", "the forward queue does not hold exactly the live edges", "fq"), dumps
         prev = byname
@@ -639,6 +764,21 @@ def hu_parse_audit(line):
     return d
 
 
+def hu_full_oracle(ck, script, out):
+    """hu_oracle + the ForwardQueue front-selection rule (Lean spec `OmplModel.FwdQ.front`, proved in forwardQueue_pop_rule) on
+    every peek/pop that recomputed the front"""
+    extra = {}
+    fail, dumps = hu_oracle(script, out, extra)
+    if fail is None and extra.get("fq"):
+        qs = extra["fq"]
+        exp = fq_expected([(f, rows) for _, f, rows, _, _ in qs], ck)
+        for (i, f, rows, order, got), x in zip(qs, exp):
+            if x is None or x >= len(order) or order[x] != got:
+                return (i, "fq-rule", "peek/pop(%s) returned edge %s; getFrontIter as coded selects %s from %s" %
+                        (f, got, order[x] if x is not None and x < len(order) else x, list(zip(order, rows))[:8]), "fq"), dumps
+    return fail, dumps
+
+
 def hu_run(ck, hbin, script):
     ops = [script[0]] + [l for l in script[1:] if not l.startswith("#")]
     out, rc, err = ck.run_bin(hbin, ops, timeout=20 if script[0].startswith("planner") else 300)
@@ -646,7 +786,17 @@ def hu_run(ck, hbin, script):
         # a planner that does not come back from solve() is not a heap matter (C03/C15 territory): the run is dropped and counted
         return [], "timeout", "", None, [], []
     out = out or []
-    fail, dumps = hu_oracle(script, out)
+    fail, dumps = hu_full_oracle(ck, script, out)
+    if fail is None and script[0].startswith("rq "):
+        # lock-step with the Lean model of ReverseQueue: stored keys in array order + handle lookups in vector order, every op
+        mout, rc3, err3 = ck.run_bin(ck.driver(RQ_DRIVER), ops)
+        if rc3 != 0:
+            raise RuntimeError("model driver %s failed (rc=%s): %s" % (RQ_DRIVER, rc3, (err3 or "")[-1000:]))
+        impl2 = [hu_strip_h(l) for l in out]
+        dd = ck.first_diff(impl2, mout)
+        if dd is not None:
+            fail = (dd, "rq-lockstep", "ReverseQueue vs its Lean model: impl `%s` model `%s`" %
+                    ((impl2[dd] if dd < len(impl2) else "<missing>")[:300], (mout[dd] if dd < len(mout) else "<missing>")[:300]), "rq")
     model = []
     if dumps:
         model, rc2, err2 = ck.run_bin(ck.driver(HU_DRIVER), hu_audit_lines(dumps))
@@ -731,6 +881,13 @@ def hu_judge(ck, hbin, script, tag, pre=None):
     for ln in script[1:]:
         if not ln.startswith("#"):
             ck.count("hu:op:%s:%s" % (user, ln.split()[0]))
+            if user == "fq" and ln.startswith(("pop ", "peek ")):
+                ck.count("hu:fq:front-with-factor:" + ln.split()[1])
+    ck.count("hu:dumps-inside-solve (validity-checker callback)", sum(1 for _, d in dumps if d.get("cb")))
+    if user == "rq":
+        ck.count("hu:rq:ops-in-lock-step-with-drv_revqueue", len(script) - 1)
+    if user == "planner" and "cb=0" not in script[0]:
+        ck.count("hu:planner-runs-with-callback-dumps")
     if len(ck.samples) < 12 and ck.dist["hu:sampled:" + user] < 1:
         ck.count("hu:sampled:" + user)
         ck.sample({"engine": "heapusers", "generator": tag, "script": script[:10] + (["…(%d more lines)" % (len(script) - 10)] if len(script) > 10 else [])}, limit=12)
@@ -757,20 +914,29 @@ def hu_judge(ck, hbin, script, tag, pre=None):
                                  "parent) although top and pop order of this very array are still right; no continuation found that makes them wrong"
                                  % (step, d["name"], user, bad))
         return False
+    if fail is not None and fail[1] == "rq-lockstep":
+        ck.disagreements += 1
+        cut = [l for l in script[1:] if not l.startswith("#")][:fail[0] + 1]
+        ck.report({"engine": "heapusers", "user": user, "what": "model/implementation disagreement"}, script=[script[0]] + cut,
+                  expected=[fail[2]], observed=[out[fail[0]][:2000] if fail[0] < len(out) else "<missing>"], found_input=False,
+                  engine="heapusers", obligation="correspondence heapusers: eitstar::ReverseQueue vs OmplModel.Model.ReverseQueue "
+                  "(stored keys in array order / handle lookups, op %d); the oracle (heap clauses, key freshness, membership) passes" % fail[0])
+        ck.log("heapusers: ReverseQueue lock-step disagreement at op %d: %s" % (fail[0], fail[2][:300]))
+        return False
     if fail is not None:
         cls = fail[1]
 
         def still(lines):
             sc = [script[0]] + lines
             o, r_, e_ = ck.run_bin(hbin, sc, timeout=300)
-            f, _ = hu_oracle(sc, o or [])
+            f, _ = hu_full_oracle(ck, sc, o or [])
             if f is None:
                 return r_ != 0 and cls == "crash"
             return f[1] == cls
         body = [l for l in script[1:] if not l.startswith("#")]
         small = [script[0]] + (core.ddmin(body, still, max_tests=300) if user != "planner" else body[:fail[0] + 1])
         o, r_, e_ = ck.run_bin(hbin, small, timeout=300)
-        f, _ = hu_oracle(small, o or [])
+        f, _ = hu_full_oracle(ck, small, o or [])
         if f is None:
             small, o, f = script, out, fail
         ck.report({"engine": "heapusers", "user": user, "heap": f[3], "what": f[1]}, script=small,
@@ -944,9 +1110,9 @@ def hu_gen_fq(rng, nops):
         lines.append("st %d %d %d %d %d %d" % (20 + rng.below(10), rng.below(9), rng.below(9), rng.below(6), rng.below(6), rng.below(20)))
     S = list(range(ns))
     T = list(range(ns, ns + nt))
-    # one suboptimality factor per script: peek() caches the front iterator and pop() reuses it whatever factor it is given
-    # (the cache is keyed on "queue modified", not on the factor); EIT* never changes the factor between peek and pop
-    fac = rng.choice(["inf", "inf", "inf", "1", "2"])
+    # peek() caches the front iterator and pop()/peek() reuse it whatever factor they are given until the queue is modified (the
+    # cache is keyed on "queue modified", not on the factor): the oracle follows that cache; finite factors go through the Lean rule
+    facs = rng.choice([["inf"], ["inf"], ["1"], ["2"], ["3"], ["inf", "1", "2", "3"]])
     for _ in range(nops):
         r = rng.below(100)
         s_, t_ = rng.choice(S), rng.choice(T)
@@ -958,9 +1124,9 @@ def hu_gen_fq(rng, nops):
         elif r < 65:
             lines.append("rm %d %d" % (s_, t_))
         elif r < 85:
-            lines.append("pop " + fac)
+            lines.append("pop " + rng.choice(facs))
         elif r < 93:
-            lines.append("peek " + fac)
+            lines.append("peek " + rng.choice(facs))
         elif r < 97:
             lines.append("rebuild")
         else:
@@ -985,15 +1151,35 @@ def hu_gen_planner(rng, steps, name=None):
                 return x, y
     # the straight start-goal segment must cross an obstacle: with a free segment the planners find the optimum at once and the
     # informed samplers (zero-measure set) never come back from their rejection loop - not a heap matter
+    # (re-tested after /repo d1f394c05: still so for AITstar only - aitstar::ImplicitGraph::addSamples ignores the sampler's
+    # `false` and the sampler was allocated with UINT_MAX rejection iterations; BIT*/ABIT*/EIT*/EIRM* come back, so one in four of
+    # their runs keeps a free segment: "solve again after the optimum was found" histories)
     while True:
         s_, g_ = free(), free()
         if any(inbox(s_[0] + (g_[0] - s_[0]) * k / 64.0, s_[1] + (g_[1] - s_[1]) * k / 64.0) for k in range(65)):
             break
-    lines = ["planner name=%s seed=%d lo=0 hi=10 start=%d,%d goal=%d,%d batch=%d boxes=%s" %
-             (name, rng.range(1, 1 << 20), s_[0], s_[1], g_[0], g_[1], rng.choice([6, 10, 20, 50, 100]),
+        if name != "AITstar" and rng.chance(1, 4):
+            break
+    cb = rng.choice([0, 1, 2, 5, 13, 13])
+    par = []
+    if rng.chance(1, 2):
+        par.append("use_k_nearest:%d" % rng.below(2))
+    if rng.chance(1, 3):
+        par.append("use_graph_pruning:%d" % rng.below(2))
+    if rng.chance(1, 4):
+        par.append("rewire_factor:%s" % rng.choice(["1.0", "1.5", "2.0"]))
+    if name in ("BITstar", "ABITstar") and rng.chance(1, 4):
+        par.append("use_just_in_time_sampling:1")
+    if name in ("BITstar", "ABITstar") and rng.chance(1, 4):
+        par.append("drop_unconnected_samples_on_prune:1")
+    lines = ["planner name=%s seed=%d lo=0 hi=10 start=%d,%d goal=%d,%d batch=%d cb=%d cbcap=%d par=%s boxes=%s" %
+             (name, rng.range(1, 1 << 20), s_[0], s_[1], g_[0], g_[1], rng.choice([6, 10, 20, 50, 100]), cb, rng.choice([2, 4, 8]),
+              ",".join(par) or "-",
               ",".join(",".join(map(str, b)) for b in boxes) or "none")]
     for _ in range(steps):
         lines.append("solve %d" % rng.choice([1, 1, 2, 2, 3, 5, 8]))
+        if rng.chance(1, 150):
+            lines.append("clear")      # history: clear(), then solve again on the same problem
     return lines
 
 
@@ -1042,7 +1228,7 @@ def run(ck):
                        "BIT*/AIT*/EIT* queues are observed only at returns of solve() (every 1-8 polls of the termination condition), "
                        "not inside an iteration"]
     ck.lean_build(LEAN_TARGETS)
-    ck.audit(roots=["Drv.Heap", "Drv.HeapAudit"])
+    ck.audit(roots=["Drv.Heap", "Drv.HeapAudit", "Drv.ReverseQueue"])
     if ck.tier == "thorough" and ck.lean_ok:
         ck.leanchecker(["OmplModel.Props.C11"])
     hbin = ck.build_harness("heap", ["heap.cpp"])
@@ -1117,7 +1303,7 @@ def run(ck):
 def replay(ck, data):
     if data.get("engine") == "heapusers" or (data.get("script") and data["script"][0].split()[0] in HU_USERS):
         ubin = hu_build(ck)
-        ck.lean_build([HU_DRIVER])
+        ck.lean_build([HU_DRIVER, RQ_DRIVER])
         script = data["script"]
         out, rc, err, fail, dumps, model = hu_run(ck, ubin, script)
         ops = [l for l in script[1:] if not l.startswith("#")]
